@@ -22,7 +22,7 @@ PROPS = {
              assumptions=["as C11; canaries cover rbx, rbp, r12-r15, MXCSR rounding/masks and the x87 control word"]),
     "C12": P(160000, 3000000, expect_reach=["cancel.at_pop", "c12.state_transitions_observed", "c12.cancel_before_start", "c12.revives", "c12.self_migration_requests", "mix.revives", "mix.cancels_before_start"],
              assumptions=["one driver per unit issues create/cancel/join/revive/free sequentially (cancel races with the target's execution, not with its own join); the cancel deadline is checked at ABT_thread_yield and at a suspend that is resumed through a pool, not for direct hand-over resumes"]),
-    "C13": P(160000, 3000000, expect_reach=["migrate.at_pop", "migrate.request_handled", "c13.requests_via_xstream_or_sched", "c13.migrate_any_stream_checked", "c13.sequence_migrations", "c13.sequence_other_moves", "c13.requests_checked_must_be_honoured", "c13.requests_overlapping_scheduling_point", "c13.poolless_targets_refused"],
+    "C13": P(160000, 3000000, expect_reach=["migrate.at_pop", "migrate.request_handled", "c13.requests_via_xstream_or_sched", "c13.migrate_any_stream_checked", "c13.sequence_migrations", "c13.sequence_other_moves", "c13.requests_checked_must_be_honoured", "c13.requests_overlapping_scheduling_point", "c13.poolless_targets_refused", "c13.units_made_migratable_later"],
              assumptions=["per unit, requests come either from the unit itself or from one issuer, so accepted requests are totally ordered; a request overlapping a scheduling point may be honoured at that point or the next"]),
     "C14": P(160000, 3000000, expect_reach=["unit.tombstone_reused", "c14.translation_queries", "c14.units_created", "c14.handles_recycled", "c14.bulk_rounds"],
              assumptions=["unit handles are crafted integers that all hash to one bucket of the 256-entry table, recycled LIFO in half of the runs; translations are queried only for units that cannot move or be freed meanwhile (the caller's own unit, or a suspended ULT)"]),
@@ -31,7 +31,7 @@ PROPS = {
                           "stack sizes 16 KiB..2 MiB (+50%) in the quick tier, up to 16 MiB in the thorough tier; with stack guards enabled the two lowest pages are not written"]),
     "C16": P(160000, 3000000, expect_reach=["key.chain_append", "key.table_creation_race_lost", "c16.remote_sets_while_owner_runs", "c16.destructor_calls", "c16.revives", "c16.keys_replaced_while_values_live", "c16.runs_with_high_key_ids"],
              assumptions=["every (unit,key) pair has a single writer (the owner or one remote setter), so the expected value is unique; ABT_KEY_TABLE_SIZE is randomised in {1,...,64}", "a revived unit is the same work unit: its values survive ABT_thread_revive / ABT_task_revive and are destroyed at the free"]),
-    "C17": P(160000, 3000000, expect_reach=["c17.lin_decided"],
+    "C17": P(160000, 3000000, expect_reach=["c17.lin_decided", "c17.streams_freed_while_running_a_unit"],
              assumptions=["each stream is freed / re-ranked only by the actor that created it; ABT_xstream_set_main_sched is applied to a joined stream or to the caller's own stream",
                           "rank histories <= 24 operations, search capped at 2e6 nodes"]),
     "C18": P(16000, 300000, level="fault_enumeration", expect_reach=["c18.calls_failed_cleanly", "c18.routines_fully_enumerated", "c18.create_unit_failures", "c18.migration_handler_declined", "c18.migration_handler_moves", "c18.keytable_race_failures"],
